@@ -997,6 +997,10 @@ Lemma types_match_kind pv k b : scalar pv ->
   types_match (av_type pv) (av_type (mk k b)) = (av_type pv =? av_type (mk k b)).
 Proof. intros _. unfold types_match. destruct k; cbn; destruct (av_type pv =? _) eqn:E; try reflexivity; lia. Qed.
 
+Lemma types_match_kind' pv k b :
+  types_match (av_type pv) (av_type (mk k b)) = (av_type pv =? av_type (mk k b)).
+Proof. unfold types_match. destruct k; cbn; destruct (av_type pv =? _) eqn:E; try reflexivity; lia. Qed.
+
 Lemma pav_scalar o v rest cols prev f : scalar v ->
   print_arg_val_f (S f) o (v :: rest) cols prev =
   match print_scalar o v cols with Some (t, w, c) => Some (t, w, c, false) | None => None end.
@@ -1026,14 +1030,13 @@ Definition notconf (prev : option av) (k : ikind) (x : Z) : Prop :=
 Lemma print_range_delta o k d x n y cols prev last :
   compress o = true -> 2 <= n < 2 ^ 31 -> d <> 0 ->
   wr k (x + 1 * d) = x + d -> wr k (x + (n - 1) * d) = last ->
-  (forall p, prev = Some p -> scalar p) ->
   exists sp t c',
     (sp = [32] \/ sp = nl4) /\
     print_arg_val o [VRep n 1; mk k d; mk k x; VSpc y] cols prev = Some (t, len t, c', false) /\
     (t = tail_text k x last sp /\ (d = 1 \/ d = -1) /\ notconf prev k x \/
      t = tok_k k x ++ [32] ++ tail_text k (x + d) last sp).
 Proof.
-  intros Hon Hn Hd0 Hsec Hlast Hprev. unfold print_arg_val. rewrite pavf_rep. unfold print_range. cbv beta iota.
+  intros Hon Hn Hd0 Hsec Hlast. unfold print_arg_val. rewrite pavf_rep. unfold print_range. cbv beta iota.
   rewrite Hon. replace (n =? 0) with false by lia. cbn [negb orb]. replace (1 =? 0) with false by reflexivity.
   cbn [negb]. rewrite pav_mk, !from_int_mk, !eq_mk.
   rewrite !range_arg_mk by lia. rewrite Hsec, Hlast.
@@ -1047,7 +1050,7 @@ Proof.
      | None => Some false end = Some cf /\ (cf = false -> notconf prev k x)).
   { destruct prev as [p|]; [|exists false; split; [reflexivity|intros _; exact I]].
     destruct (av_type p =? av_type (mk k x)) eqn:Et.
-    - apply Z.eqb_eq in Et. destruct (type_mk_inj k x p (Hprev p eq_refl) Et) as (a & ->).
+    - apply Z.eqb_eq in Et. destruct (type_mk_inj' k x p Et) as (a & ->).
       rewrite eq_mk. exists (negb (x =? a)). split; [reflexivity|]. intros Hf. right.
       apply negb_false_iff, Z.eqb_eq in Hf. now subst.
     - exists false. split; [reflexivity|]. intros _. left. now apply Z.eqb_neq. }
@@ -1227,9 +1230,14 @@ Proof.
     rewrite Hm. rewrite (pav_scalar o a0 _ _ None 4 Hs). rewrite Ed, E. reflexivity.
 Qed.
 
+Definition first_notconf (prev : option av) (its : list item) : Prop :=
+  match its with
+  | ITail k b d m _ _ :: _ => notconf prev k b /\ unit_step d m
+  | _ => True
+  end.
+
 Lemma print_iter_sa a0 rest size prev t tmp cols cols1 bb cv :
   goodc o zf zd a0 -> Forall (goodca o zf zd) rest -> Z.of_nat (length (a0 :: rest)) < 2 ^ 31 ->
-  (forall p, prev = Some p -> scalar p) ->
   convert_to_range o (a0 :: rest) size = cv -> cv <> CUnmod ->
   print_arg_val o (match cv with CYes c _ => c | _ => a0 :: rest end) cols prev = Some (t, tmp, cols1, bb) ->
   exists its inc,
@@ -1237,9 +1245,10 @@ Lemma print_iter_sa a0 rest size prev t tmp cols cols1 bb cv :
     Z.of_nat inc = (match cv with CYes _ kk => kk | _ => next_arg_offset (a0 :: rest) end) /\
     (1 <= inc <= length (a0 :: rest))%nat /\
     iorig its = firstn inc (a0 :: rest) /\ iter_text prev its t /\
-    nth_error (a0 :: rest) (inc - 1) = ilast its.
+    nth_error (a0 :: rest) (inc - 1) = ilast its /\
+    (match cv with CYes _ _ => Z.of_nat inc <= size | _ => inc = 1%nat end) /\ first_notconf prev its.
 Proof.
-  intros Hg0 Hgr Hlen Hprev Hcv Hnu Hp.
+  intros Hg0 Hgr Hlen Hcv Hnu Hp.
   destruct (goodc_facts o zf zd a0 Hg0) as (Hs0 & _ & Hex0).
   assert (Hg : Forall (goodca o zf zd) (a0 :: rest)) by (constructor; [now left|exact Hgr]).
   assert (Hsc : Forall sa (a0 :: rest)) by (eapply Forall_impl; [|exact Hg]; exact (goodca_sa o zf zd)).
@@ -1251,8 +1260,8 @@ Proof.
     destruct (goodc_tok dec2f dec2d o zf zd a0 cols t tmp cols1 Hg0 Eps) as (Htk & Hnd & Hw).
     exists [IVal a0 t], 1%nat. split; [reflexivity|]. split; [exact Hw|].
     split; [destruct a0; cbn in Hs0; try contradiction; reflexivity|]. split; [cbn [length]; lia|].
-    split; [reflexivity|]. split; [split; [reflexivity|split; assumption]|reflexivity].
-  - destruct (range_expand_shape_sa zf zd (proj1 Hz) (proj2 Hz) o (a0 :: rest) size c kk Hsc Hin Hex0 Hlen Hcv) as (n & -> & Hn5 & Hexp & Hshape).
+    split; [reflexivity|]. split; [split; [reflexivity|split; assumption]|]. split; [reflexivity|]. split; [reflexivity|exact I].
+  - destruct (range_expand_shape_sa zf zd (proj1 Hz) (proj2 Hz) o (a0 :: rest) size c kk Hsc Hin Hex0 Hlen Hcv) as (n & -> & Hn5 & Hexp & Hshape & Hle).
     destruct Hn5 as [Hn5 Hnl].
     destruct Hshape as [[[y Ec] Hrep]|(k & d & x & y & Ec & Hdr & Hhd & Hd0 & Hexj)]; subst c; cbn [hd] in *.
     + (* N x value *)
@@ -1265,7 +1274,8 @@ Proof.
       split; [unfold iorig; cbn [map concat item_orig]; now rewrite app_nil_r, Nat2Z.id|].
       split.
       * cbn [iter_text item_text item_ok]. split; [now rewrite <- app_assoc|]. split; [lia|]. split; assumption.
-      * rewrite (nth_firstn (a0 :: rest) _ n (n - 1) Hrep) by lia. cbn [ilast rev app item_last].
+      * split; [|split; [exact Hle|exact I]].
+        rewrite (nth_firstn (a0 :: rest) _ n (n - 1) Hrep) by lia. cbn [ilast rev app item_last].
         clear -Hn5. assert (n = S (n - 1)) by lia. rewrite H at 1. cbn [repeat]. generalize (n - 1)%nat. intros m.
         induction m as [|m IH]; [reflexivity|exact IH].
     + (* a run with a step *)
@@ -1281,7 +1291,7 @@ Proof.
       { replace (Z.of_nat n - 1) with (Z.of_nat (n - 1)) by lia. rewrite Hex by lia. unfold last. f_equal. f_equal. lia. }
       assert (Hsec : wr k (x + 1 * d) = x + d).
       { replace 1 with (Z.of_nat 1) by reflexivity. rewrite Hex by lia. lia. }
-      destruct (print_range_delta o k d x (Z.of_nat n) y cols prev last Hon ltac:(lia) Hd0 Hsec Hlast Hprev)
+      destruct (print_range_delta o k d x (Z.of_nat n) y cols prev last Hon ltac:(lia) Hd0 Hsec Hlast)
         as (sp & t' & c' & Hsp & Hpr & Hshape).
       rewrite Hpr in Hp. inversion Hp; subst t' tmp c' bb. clear Hp.
       assert (Hslast : small_k k last).
@@ -1296,13 +1306,13 @@ Proof.
         split; [reflexivity|]. split; [lia|]. split.
         { unfold iorig. cbn [map concat item_orig]. rewrite app_nil_r, Nat2Z.id, <- Hm.
           apply map_ext_in. intros j Hj. apply in_seq in Hj. now rewrite Hex by lia. }
-        split; [|exact Hnth].
+        split; [|split; [exact Hnth|split; [exact Hle|cbn [first_notconf]; unfold unit_step; split; [exact Hnc|split; [exact Hd1|lia]]]]].
         cbn [iter_text item_text item_ok]. split; [reflexivity|]. split; [|split; [exact Hsp|]].
         { unfold run_ok. split; [exact Hsx|]. split; [exact Hslast|]. split; [unfold last; lia|]. split; [lia|].
           split; [exact Hd0|]. split; [exact Hdr|].
           replace (last - x) with (Z.of_nat (n - 1) * d) by (unfold last; lia). apply (Hexj (n - 1)%nat). lia. }
         unfold ctx_ok, unit_step. destruct prev as [p|]; [|split; [assumption|lia]].
-        rewrite (types_match_kind p k x (Hprev p eq_refl)). cbn [notconf] in Hnc.
+        rewrite (types_match_kind' p k x). cbn [notconf] in Hnc.
         destruct Hnc as [Hne| ->].
         -- replace (av_type p =? av_type (mk k x)) with false by (symmetry; now apply Z.eqb_neq). split; [assumption|lia].
         -- rewrite Z.eqb_refl. exists x. split; [reflexivity|]. left. split; [reflexivity|]. split; [assumption|lia].
@@ -1314,7 +1324,7 @@ Proof.
           clear - Hn5. destruct n as [|m]; [lia|]. replace (Z.to_nat (Z.of_nat (S m) - 1)) with m by lia.
           cbn [seq map app]. f_equal; [f_equal; lia|].
           rewrite <- seq_shift, map_map. apply map_ext. intros j. f_equal. lia. }
-        split; [|exact Hnth].
+        split; [|split; [exact Hnth|split; [exact Hle|exact I]]].
         cbn [iter_text item_text item_ok item_last]. split; [reflexivity|].
         assert (Hsxd : small_k k (x + d)).
         { specialize (Hsm 1%nat ltac:(lia)). rewrite Hex in Hsm by lia. now replace (x + Z.of_nat 1 * d) with (x + d) in Hsm by lia. }
@@ -1340,8 +1350,11 @@ Lemma print_iter a0 rest size prev t tmp cols cols1 bb cv :
     iorig its = firstn inc (a0 :: rest) /\ iter_text prev its t /\
     nth_error (a0 :: rest) (inc - 1) = ilast its.
 Proof.
-  intros Hg. apply print_iter_sa; [exact (Forall_inv Hg)|].
-  eapply Forall_impl; [|exact (Forall_inv_tail Hg)]. intros a Ha. now left.
+  intros Hg Hlen _ Hcv Hnu Hp.
+  destruct (print_iter_sa a0 rest size prev t tmp cols cols1 bb cv (Forall_inv Hg)) as (its & inc & A & B & C & D & E & F & G & _);
+    try assumption.
+  - eapply Forall_impl; [|exact (Forall_inv_tail Hg)]. intros a Ha. now left.
+  - exists its, inc. auto 10.
 Qed.
 
 Fixpoint iseq_from (pend : bool) (p : option av) (its : list item) (sfx : list Z) : Prop :=
